@@ -235,7 +235,6 @@ def one(ctx, item):
         return hash_sweep(ctx, item)
     rng = random.Random(f'{ctx.seed}-c08-{item}')
     cfg = make_cfg(rng, ctx.quick)
-    n = sum(cfg['n'].values())
     rs = [random_rendering(cfg, rng) for _ in range(4 if ctx.quick else 6)]
     check_cfg(ctx, pg, cfg, rs, sfs=True)
 
